@@ -482,6 +482,10 @@ def check_history(ops_py):
                     bad.append((f"set-does-not-read-back:{op[1]}", f"step {i}: assigned {op[2]!r}, reads {got!r}"))
                 if not _arr_eq(core_before, copy.copy(obj).atcorenums):
                     bad.append((f"set-changed-core:{op[1]}", f"step {i}: assigning {op[1]} changed atcorenums"))
+            if op[0] == "set" and _wrong_dims(op[1], op[2]):
+                bad.append((f"wrong-dimensionality-accepted:{op[1]}",
+                            f"step {i}: {op[1]} = value of {np.ndim(op[2])} dimension(s) was accepted"))
+                return bad
             if op[0] == "set" and op[1] == "atcorenums":
                 explicit = op[2] is not None
             if op[0] == "new":
@@ -521,7 +525,22 @@ def check_history(ops_py):
 NONDYADIC = [0.1, 0.3, -0.7, 1.1, 2.2, 6.9, 1e-3, 1.0 / 3.0]
 
 
+NDIM = {"atnums": 1, "atcorenums": 1, "atmasses": 1, "atfrozen": 1, "atcoords": 2, "atgradient": 2}
+
+
+def _wrong_dims(name, value):
+    """a value whose number of dimensions is not the field's (scalars, 0-d arrays, flat coordinates, nested rows)"""
+    if name not in NDIM or value is None:
+        return False
+    return np.ndim(value) != NDIM[name]
+
+
 def _search_value(rng, name):
+    if name in NDIM and rng.random() < 0.08:
+        # wrong dimensionality: must be refused like a wrong length
+        n = rng.randint(1, 3)
+        return rng.choice([np.float64(8.0), 8, np.array(8.0), np.ones(n) if NDIM[name] == 2 else np.ones((n, 3)),
+                           np.ones((n, 3, 1)) if NDIM[name] == 2 else np.ones((n, 1))])
     v = rand_value(rng, name)
     if name in SCALARS and rng.random() < 0.3:
         return rng.choice(NONDYADIC)
@@ -549,6 +568,8 @@ def _jsonable(ops):
     def j(v):
         if isinstance(v, np.ndarray):
             return {"array": v.tolist(), "dtype": str(v.dtype)}
+        if isinstance(v, np.generic):
+            return v.item()
         if v is None or isinstance(v, (int, float)):
             return v
         for k, m in mo_table().items():
